@@ -7,7 +7,7 @@
    earlier versions of the code (kept for the refuted statements).  Single promise: Join is not
    in this model. *)
 From CV Require Import Promise.Promise Promise.PromiseProofs Promise.PromiseStepProofs Promise.MuProofs
-  Promise.PromiseTheorems Promise.PromiseLive Promise.PromiseProxies Promise.PromiseJoin Promise.PromiseJoinProofs Promise.PromiseJoinThms Promise.PromiseJoinInv Promise.PromiseJoinRefs Promise.PromiseJoinForest Promise.PromiseJoinDest Promise.PromiseJoinChain Promise.PromiseJoinLive Promise.PromiseJoinStuck.
+  Promise.PromiseTheorems Promise.PromiseLive Promise.PromiseProxies Promise.PromiseJoin Promise.PromiseJoinProofs Promise.PromiseJoinThms Promise.PromiseJoinInv Promise.PromiseJoinRefs Promise.PromiseJoinForest Promise.PromiseJoinDest Promise.PromiseJoinChain Promise.PromiseJoinLive Promise.PromiseJoinStuck Promise.PromiseJoinZero.
 Open Scope Z_scope.
 
 (* the promise resolves at most once; Fulfill/Reject after the first one panics (OPanic), the
@@ -319,3 +319,13 @@ Theorem C11_join_waiters_released_partial : forall v np ops c,
   forall t th, nth_error (jthreads c) t = Some th -> j_pc th = QDone.
 Proof. exact join_waiters_released_partial. Qed.
 Print Assumptions C11_join_waiters_released_partial.
+
+(* relation between the two models, PARTIAL: with zero Join operations the Join-specific state of PromiseJoin.v is
+   inert (no promise pending join or joined, no mu held at a section boundary, no thread in a Join section): each
+   promise runs the single-promise protocol on its own fields.  A full simulation on the projected observables is not
+   proved; the two models are additionally tied through the implementation (seq vs join 1 / par 1 histories). *)
+Theorem C11_join_zero_joins_inert_partial : forall v np ops c, Forall no_join_op ops -> jreach v np ops c ->
+  (forall k, p_next (getp c k) = None /\ p_joined (getp c k) = CNil /\ p_mu (getp c k) = None) /\
+  (forall t th, nth_error (jthreads c) t = Some th -> jjoin_pc (j_pc th) = false).
+Proof. exact join_zero_joins_inert. Qed.
+Print Assumptions C11_join_zero_joins_inert_partial.
